@@ -163,6 +163,17 @@ def ugrid_dataset(mesh, fill, start, dtype, lon360, with_attrs=True):
     return ds
 
 
+def ugrid_dataset_with_edges(mesh):
+    """a UGRID dataset that ships its OWN edge table in the standard encoding (int64, zero-based, no attributes to convert), rows in
+    the order of the sorted pairs but every other row listed as (larger node, smaller node)"""
+    ds = ugrid_dataset(mesh, FILL, 0, np.int64, False)
+    es = sorted(mg.edge_set(mesh["faces"]))
+    en = np.array([(b, a) if i % 2 else (a, b) for i, (a, b) in enumerate(es)], dtype=np.int64)
+    ds["Mesh2_edge_nodes"] = xr.DataArray(en, dims=["nMesh2_edge", "Two"], attrs={"cf_role": "edge_node_connectivity", "_FillValue": FILL})
+    ds["Mesh2"].attrs["edge_node_connectivity"] = "Mesh2_edge_nodes"
+    return ds
+
+
 # ------------------------------------------------------------------------------------------------ the sweep
 def sharing(tier, seed):
     thorough = tier == "thorough"
@@ -235,8 +246,9 @@ def sharing(tier, seed):
             # ---------- from_dataset / open_grid with an in-memory UGRID dataset
             if fill == FILL and np.dtype(dtype) == np.int32:
                 continue
-            for opener in ("from_dataset", "open_grid"):
-                ds = ugrid_dataset(mesh, fill, start, dtype, lon360)
+            openers = ("from_dataset", "open_grid") + (("from_dataset:own_edge_table",) if (fill == FILL and start == 0 and np.dtype(dtype) == np.int64 and not lon360) else ())
+            for opener in openers:
+                ds = ugrid_dataset(mesh, fill, start, dtype, lon360) if ":" not in opener else ugrid_dataset_with_edges(mesh)
                 raw = {n: ds[n].values for n in ds.variables}      # the caller may hold the arrays too
                 before = snap(ds)
                 raw_before = snap(raw)
@@ -244,7 +256,7 @@ def sharing(tier, seed):
                 distinct.add((mesh["name"], opener, vtag))
                 g = None
                 try:
-                    g = ux.Grid.from_dataset(ds) if opener == "from_dataset" else ux.open_grid(ds)
+                    g = ux.Grid.from_dataset(ds) if opener.startswith("from_dataset") else ux.open_grid(ds)
                 except Exception:
                     pass
                 d = diff(before, snap(ds)) + diff(raw_before, snap(raw), "arrays")
@@ -252,6 +264,7 @@ def sharing(tier, seed):
                 if not d and g is not None:
                     derive(g)
                     try:
+                        g.face_edge_connectivity, g.edge_face_connectivity
                         g.to_xarray()
                         g.attrs["added_by_user_of_grid"] = 1
                         g.node_lon.attrs["edited"] = True
